@@ -81,8 +81,17 @@ fn emit_value_case(rng: &mut Rng, family: &str, n: usize, re: Vec<i64>, im: Vec<
   let transposed = transpose(&a, n);
   let conj: Vec<C> = a.iter().map(|z| z.conj()).collect();
   let sv = sv_sums(&mag, n);
+  // global scale factors far from 1 but well inside the binary64 range of sigma^4: K must not change
+  let extreme: Vec<Value> = [-15i32, -16, -17, -18, -30, 15, 30]
+    .iter()
+    .map(|e| {
+      let f = 10f64.powi(*e);
+      let v: Vec<C> = a.iter().map(|z| z * f).collect();
+      json!({"exp10": e, "factor": fx(f), "result": kjson(&v)})
+    })
+    .collect();
   emit(json!({
-    "kind": "val", "family": family, "n": n, "re": re, "im": im, "scale": fx(fscale),
+    "kind": "val", "family": family, "scaled_extreme": extreme, "n": n, "re": re, "im": im, "scale": fx(fscale),
     "mag": fxs(&mag), "base": base,
     "scaled": kjson(&scaled), "scale_c": [fx(c.re), fx(c.im)],
     "phased": kjson(&phased), "transposed": kjson(&transposed), "conj": kjson(&conj),
@@ -298,7 +307,7 @@ pub fn build_setup(v: &Value) -> Result<SPDC, String> {
 fn setup_cases(rng: &mut Rng, ncases: usize) {
   let list = setups();
   for case in 0..ncases {
-    let (name, cfg) = &list[case % list.len()];
+    let (name, cfg) = &list[(case + case / 4) % list.len()];
     let spdc = match build_setup(cfg) {
       Ok(s) => s,
       Err(e) => {
@@ -307,7 +316,13 @@ fn setup_cases(rng: &mut Rng, ncases: usize) {
       }
     };
     let n = 2 + rng.below(if case < list.len() { 6 } else { 14 });
-    let range: FrequencySpace = if case % 3 == 2 {
+    // every fourth case: different numbers of signal and idler steps (products that are and are not perfect squares)
+    let shapes = [(4usize, 9usize), (3, 5), (9, 4), (2, 8), (5, 7), (1, 4), (6, 6), (2, 3)];
+    let (nx, ny) = if case % 4 == 3 { shapes[(case / 4) % shapes.len()] } else { (n, n) };
+    let range: FrequencySpace = if nx != ny {
+      let st = spdc.optimum_range(n).as_steps();
+      FrequencySpace::new((st.0 .0, st.0 .1, nx), (st.1 .0, st.1 .1, ny))
+    } else if case % 3 == 2 {
       // a hand-made wavelength window around the degenerate point, converted as the API does
       let ls = *(spdc.signal.vacuum_wavelength() / M);
       let li = *(spdc.idler.vacuum_wavelength() / M);
@@ -327,7 +342,7 @@ fn setup_cases(rng: &mut Rng, ncases: usize) {
       Err(p) => json!({"class": "panic", "k": fx(f64::NAN), "msg": p}),
     };
     emit(json!({
-      "kind": "setup", "setup": name, "n": n,
+      "kind": "setup", "setup": name, "n": n, "nx": nx, "ny": ny,
       "xs": [fx(*(st.0 .0 / (RAD / S))), fx(*(st.0 .1 / (RAD / S)))], "ys": [fx(*(st.1 .0 / (RAD / S))), fx(*(st.1 .1 / (RAD / S)))],
       "mag": fxs(&mag), "direct": direct, "via_array": kjson(&amps),
     }));
